@@ -7,6 +7,7 @@ import Driver.OpsProf
 import Driver.OpsEV
 import Driver.OpsGraph
 import Driver.OpsLP
+import Driver.OpsCtl
 
 namespace Driver
 
@@ -15,6 +16,7 @@ structure DState where
   acct : List Relsad.BusAcc := []
   ev : Option EVCtx := none
   lp : Option (Relsad.LP.Island × Relsad.LP.LP) := none
+  ctl : Option (Relsad.Control.Cfg × Relsad.Control.St) := none
 
 def step (st : DState) (line : String) : DState × String :=
   match line.splitOn " " with
@@ -22,6 +24,10 @@ def step (st : DState) (line : String) : DState × String :=
   | "ev" :: args =>
       match opsEV st.ev args with
       | some (b, out) => ({ st with ev := b }, out)
+      | none => (st, "bad-op")
+  | "ctl" :: args =>
+      match opsCtl st.ctl args with
+      | some (b, out) => ({ st with ctl := b }, out)
       | none => (st, "bad-op")
   | "lp" :: args =>
       match opsLP st.lp args with
